@@ -31,6 +31,7 @@ type FileCfg struct {
 	Points  []string          `json:"points"`  // function names ("Recv.Name" or "Name"), "*" = all
 	Go      bool              `json:"go"`      // rewrite go statements
 	Gosched bool              `json:"gosched"` // rewrite runtime.Gosched()
+	Chan    bool              `json:"chan"`    // rewrite channel receive/send and blocking select into scheduler-aware polling (buffered / close-only channels; unbuffered rendezvous is NOT supported)
 	Skip    []string          `json:"skip"`    // functions excluded from "*"
 	Atomic  []string          `json:"atomic"`  // functions executed as one scheduler step (points inside are suppressed); "Name@1" = only when vsched.AtomicLevel >= 1
 	Filter  string            `json:"filter"`  // "shared" (default): only statements whose own expressions contain a call, selector, dereference or channel operation; "all": every statement
@@ -346,6 +347,39 @@ func instrument(src, dst string, fc FileCfg) error {
 			return fmt.Errorf("designated function %q not found", n)
 		}
 	}
+	// channel receives that are the communication of a select case stay as they are (the
+	// select itself is made non-blocking); `v, ok := <-ch` needs the two-value helper
+	inSelectComm := map[*ast.UnaryExpr]bool{}
+	inSelectSend := map[*ast.SendStmt]bool{}
+	twoValue := map[*ast.UnaryExpr]bool{}
+	var chanErr error
+	ast.Inspect(f, func(n ast.Node) bool {
+		switch x := n.(type) {
+		case *ast.CommClause:
+			var e ast.Expr
+			if ss, ok := x.Comm.(*ast.SendStmt); ok {
+				inSelectSend[ss] = true
+			}
+			switch c := x.Comm.(type) {
+			case *ast.ExprStmt:
+				e = c.X
+			case *ast.AssignStmt:
+				if len(c.Rhs) == 1 {
+					e = c.Rhs[0]
+				}
+			}
+			if u, ok := e.(*ast.UnaryExpr); ok && u.Op == token.ARROW {
+				inSelectComm[u] = true
+			}
+		case *ast.AssignStmt:
+			if len(x.Lhs) == 2 && len(x.Rhs) == 1 {
+				if u, ok := x.Rhs[0].(*ast.UnaryExpr); ok && u.Op == token.ARROW {
+					twoValue[u] = true
+				}
+			}
+		}
+		return true
+	})
 	// go statements / Gosched anywhere in the file
 	usesRuntime := false
 	ast.Inspect(f, func(n ast.Node) bool {
@@ -355,6 +389,68 @@ func instrument(src, dst string, fc FileCfg) error {
 				add(off(x.Pos()), off(x.Call.Pos()), "vsched.Go(func() { ")
 				add(off(x.End()), off(x.End()), " })")
 				usesSched = true
+			}
+		case *ast.SelectStmt:
+			if fc.Chan {
+				hasDefault := false
+				for _, cl := range x.Body.List {
+					if cc := cl.(*ast.CommClause); cc.Comm == nil {
+						hasDefault = true
+					}
+					// unlabeled continue inside a case body would bind to the wrapper loop
+					for _, st := range cl.(*ast.CommClause).Body {
+						ast.Inspect(st, func(m ast.Node) bool {
+							switch y := m.(type) {
+							case *ast.ForStmt, *ast.RangeStmt, *ast.FuncLit:
+								return false
+							case *ast.BranchStmt:
+								if y.Tok == token.CONTINUE && y.Label == nil {
+									chanErr = fmt.Errorf("%s: select case body with unlabeled continue is not supported", fset.Position(y.Pos()))
+								}
+							}
+							return true
+						})
+					}
+				}
+				if !hasDefault {
+					// for { select { case c0: ...; default: select { case c1: ...; default: yield; continue } }; break }
+					// Go picks pseudo-randomly among ready cases; nesting makes the pick deterministic
+					// (first ready case in textual order) so that replays are exact.
+					add(off(x.Pos()), off(x.Pos()), "for { ")
+					for i, cl := range x.Body.List {
+						if i > 0 {
+							add(off(cl.Pos()), off(cl.Pos()), "default: select { ")
+						}
+					}
+					closing := "default: vsched.SelectYield(); continue\n"
+					for i := 1; i < len(x.Body.List); i++ {
+						closing += "}"
+					}
+					add(off(x.Body.Rbrace), off(x.Body.Rbrace), closing)
+					add(off(x.End()), off(x.End()), "; break }")
+					usesSched = true
+				}
+			}
+		case *ast.SendStmt:
+			if fc.Chan && !inSelectSend[x] {
+				add(off(x.Pos()), off(x.Pos()), "vsched.Send(")
+				add(off(x.Arrow), off(x.Arrow)+2, ", ")
+				add(off(x.End()), off(x.End()), ")")
+				usesSched = true
+			}
+		case *ast.UnaryExpr:
+			if fc.Chan && x.Op == token.ARROW && !inSelectComm[x] {
+				if twoValue[x] {
+					add(off(x.Pos()), off(x.Pos())+2, "vsched.Recv2(")
+				} else {
+					add(off(x.Pos()), off(x.Pos())+2, "vsched.Recv(")
+				}
+				add(off(x.End()), off(x.End()), ")")
+				usesSched = true
+			}
+		case *ast.RangeStmt:
+			if fc.Chan {
+				// cannot know statically whether X is a channel: only flag the obvious case
 			}
 		case *ast.CallExpr:
 			if fc.Gosched {
@@ -369,6 +465,9 @@ func instrument(src, dst string, fc FileCfg) error {
 		}
 		return true
 	})
+	if chanErr != nil {
+		return chanErr
+	}
 	if usesSched {
 		add(off(f.Name.End()), off(f.Name.End()), `; import vsched "verif/engine/vsched"`)
 	}
